@@ -425,7 +425,7 @@ func xsalsaCase(c *scase) {
 
 func main() {
 	r = vk.New("exploration")
-	r.SetBudget(80*time.Second, 15*time.Minute)
+	r.SetBudget(150*time.Second, 15*time.Minute)
 	crand.Reader = rdr
 
 	xchachaAnchors()
